@@ -31,8 +31,9 @@ if [ -f $out/demo_test.go ]; then
   go test -vet=off -count=1 -run 'Demo|C[0-9][0-9]' ./$tgt >> $log 2>&1; demo_without=$?
   git -C $wt apply $out/patch.diff
   rm -f $wt/$tgt/zz_demo_test.go
-elif [ -f $out/demo.sh ]; then
-  cp $out/demo.sh $dest/demo.sh; cp $out/expected* $dest/ 2>/dev/null
+elif [ -f $out/demo.sh ] || [ -f $out/run.sh ]; then
+  [ -f $out/demo.sh ] || cp $out/run.sh $out/demo.sh
+  cp $out/demo.sh $dest/demo.sh; cp $out/demo.cpp $dest/ 2>/dev/null; cp $out/expected* $dest/ 2>/dev/null
   echo "== demo.sh with patch" >> $log
   (cd $out && timeout 600 sh ./demo.sh </dev/null) >> $log 2>&1; demo_with=$?
   git -C $wt apply -R $out/patch.diff
